@@ -1,4 +1,5 @@
 """C06 — only the documented error families ever escape; every call terminates."""
+import asyncio
 import json
 import random
 import re
@@ -101,6 +102,11 @@ def gen(rng, tier):
         yield {"kind": "patch", "mode": True, "ops": [["test", "/a/" + tok, 1], ["remove", "/a/" + tok]], "doc": {"a": [1, 2]}}
         yield {"kind": "patch", "mode": True, "ops": [["copy", "/a/" + tok, "/b"]], "doc": {"a": [1, 2]}}
         yield {"kind": "patch", "mode": True, "ops": [["replace", "/" + tok, 1]], "doc": [1, 2]}
+    # corner slices (zero step, steps and bounds of either sign beyond the array) through every evaluation route
+    for q in ("$[::0]", "$.a[1:3:0]", "$..[::0]", "$.a[0, ::0, 2]", "$[?@[::0]]", "$[?!@[::0]]", "$..[5:-9:-3]", "$.a[-9:9:4]", "$[?count(@[::0]) == 0]",
+              "$[::-0]", "$.a[::9007199254740991]"):
+        for doc in DOCS:
+            yield {"kind": "compile", "text": q, "doc": doc, "ctx": {}}
     # (1) queries
     for i in range(n):
         r = rng.random()
@@ -233,6 +239,9 @@ def impl(case):
             doc = deep(case["doc"])
             if not isinstance(doc, str):
                 out["eval"] = guarded(lambda: ["ok", [SX.canon(v) for v in c.findall(doc, filter_context=deep(case["ctx"]))]])
+                # the lazy and the asynchronous twins of the same evaluation (separate code paths in every selector)
+                out["eval_iter"] = guarded(lambda: ["ok", [m.path for m in c.finditer(deep(case["doc"]), filter_context=deep(case["ctx"]))][:0]])
+                out["eval_async"] = guarded(lambda: ["ok", asyncio.run(c.findall_async(deep(case["doc"]), filter_context=deep(case["ctx"])))[:0]])
                 out["str"] = guarded(lambda: ["ok", str(c)])
         return out
     if k == "ptr":
@@ -372,7 +381,7 @@ def project(case, res, dec=None):
     if k == "compile":
         out = {"tokens": _family(_errs(res["tokens"], []) + [t[1] for t in res["tokens"] if isinstance(t, list) and t and t[0] == "ILLEGAL"], ["jp-"]),
                "compile": _family(_errs(res["compile"], []), ["jp-"]),
-               "eval": _family(_errs(res.get("eval", []), []), ["jp-", "recursion-limit"]),
+               "eval": _family(_errs([res.get("eval", []), res.get("eval_iter", []), res.get("eval_async", [])], []), ["jp-", "recursion-limit"]),
                "str": "ok" if res.get("str", ["ok"])[0] == "ok" else res.get("str")}
         return out
     if k == "ptr":
